@@ -8,7 +8,7 @@ pub const NEAR_KEYWORD_NAMES: &[&str] = &[
     "inout2", "Listing", "int_", "doX", "Maps", "voidx", "in_", "onewayX", "Stringy", "trueish", "imports",
     "enumerate", "constant", "interfaces", "parcelables", "package_", "outer", "CharSequences", "f", "e1",
 ];
-pub const PACKAGES: &[&[&str]] = &[&["a"], &["a", "b"], &["p", "q"], &["other", "pkg"], &["pkg"]];
+pub const PACKAGES: &[&[&str]] = &[&["a"], &["a", "b"], &["p", "q"], &["other", "pkg"], &["pkg"], &["a", "xpkg"], &["ab"]];
 pub const ITEM_NAMES: &[&str] = &["Foo", "XFoo", "FooX", "Bar", "IFoo", "Foo2"];
 pub const BUILTIN_SIMPLE: &[&str] = &["IBinder", "FileDescriptor", "ParcelFileDescriptor", "ParcelableHolder"];
 pub const BUILTIN_QUALIFIED: &[&str] = &[
@@ -343,6 +343,17 @@ pub fn gen_project(rng: &mut Rng, cfg: &DocCfg) -> Vec<(String, Doc)> {
             fpool.customs.push(vec![imp[imp.len() - 1].clone()]);
             // near misses: prefixed simple name, other package
             fpool.customs.push(vec![format!("X{}", imp[imp.len() - 1])]);
+            // suffixes of the dotted import that do not start at a '.' boundary (`pkg.Foo` for
+            // `a.xpkg.Foo`, `oo` for `a.Foo`): they must never match
+            let joined = imp.join(".");
+            let chars: Vec<char> = joined.chars().collect();
+            for _ in 0..2 {
+                let i = rng.range(1, chars.len() - 1);
+                if chars[i - 1] != '.' && (chars[i].is_ascii_alphabetic() || chars[i] == '_') {
+                    let suffix: String = chars[i..].iter().collect();
+                    fpool.customs.push(split(&suffix));
+                }
+            }
         }
         for d in &decls {
             fpool.customs.push(d.path.clone());
